@@ -1,1 +1,46 @@
-fn main() {}
+//! C14 harness: seeded event histories (ticks, epoch +1/+2, immutable / block progress, signer
+//! registrations all/some/late/none, signatures on time / early (buffered) / late / repeated /
+//! invalid / for expired or certified messages, open-message expiry, restarts between ticks) driven
+//! through the REAL aggregator (RuntimeTester: state machine, certifier, sqlite).
+//! K: after every event the state label, the event's outcome class and the certification tables
+//! (open messages, certificates with parent ordinals, single signatures, buffered signatures, signed
+//! entities) equal what the Lean model `Agg.step` computes for the same history.
+//! S: on the real store — every certificate verifies with its whole chain under a fresh
+//! `MithrilCertificateVerifier`, parent rule, no entity certified twice, AVK / next AVK / parameters
+//! of the epoch, no link across an epoch gap, signer list, signed entities.
+use hagg::walk::{run_history, HistoryCfg};
+use hagg::*;
+
+#[tokio::main(flavor = "multi_thread", worker_threads = 4)]
+async fn main() {
+    let args = Args::parse();
+    silence_stdout();
+    install_panic_hook();
+    let mut sink = Sink::new(&args);
+    let n_hist = if args.thorough() { 240 } else { 24 };
+    let mut totals: std::collections::BTreeMap<String, u64> = Default::default();
+    for h in 0..n_hist {
+        if !sink.wanted() {
+            sink.skip();
+            continue;
+        }
+        let mut rng = Rng::new(args.seed.wrapping_mul(1_000_003).wrapping_add(h as u64));
+        let cfg = HistoryCfg::draw(&mut rng, h, args.thorough());
+        let name = format!("c14_{}_{}", args.seed, h);
+        let w = run_history(&name, &cfg, &mut rng, None).await;
+        let req = w.request("c14.run");
+        let idx = sink.case(&cfg.tag(), &req, &w.observation());
+        for (c, what) in &w.sfails {
+            sink.sfail(idx, c, what, &req);
+        }
+        for t in &w.tags {
+            *totals.entry(t.clone()).or_insert(0) += 1;
+        }
+        *totals.entry("events".into()).or_insert(0) += w.events.len() as u64;
+        *totals.entry("certificates".into()).or_insert(0) += (w.last_cert_count.saturating_sub(1)) as u64;
+    }
+    for (k, v) in totals {
+        sink.note(&format!("hit.{}", k), &v.to_string());
+    }
+    sink.finish();
+}
